@@ -303,12 +303,20 @@ def _c06_optsets_for(k, fixed, rnd, n_fixed=5, n_big=2):
     return out
 
 
+# every operator between two operands, glued or spaced on either side (spacing filters must not turn an operator into
+# something else, e.g. '#' followed by a blank into a comment opener)
+OPERATOR_LAYOUTS = ['select ' + lay.replace('@', op) + ' from t'
+                    for op in ('+', '-', '*', '/', '%', '#', '&', '|', '^', '||', '->', '->>', '#>', '<', '<=', '<>', '!=',
+                               '=', '==', '~', '!~', '@>')
+                    for lay in ('a@b', 'a @b', 'a@ b', '(a)@(b)', 'a @ b')]
+
+
 def cases_C06(tier='quick', seed=0):
     fixed = _layout_singles_and_pairs()
     rnd = random.Random(seed * 7919 + 6)
     singles = [f for f in fixed if len(f) <= 1]
     # exhaustive part: odd texts x every single option
-    for t in ODD_TEXTS:
+    for t in ODD_TEXTS + OPERATOR_LAYOUTS:
         for f in singles:
             yield (t, f)
     mult = 1 if tier == 'quick' else 6
